@@ -20,7 +20,7 @@ from .c01 import FUNCS
 
 OPS = ['run', 'get_run_func', 'get_jacobian_func', 'get_nodes', 'get_edges', 'get_edge', 'collect_edges',
        'collect_edges_delay', 'get_node_template', 'getitem', 'to_yaml', 'deepcopy', 'update_template',
-       'op_update_template', 'update_var_on_copy', 'run_noclear', 'get_run_func_noclear', 'get_jacobian_func_noclear']
+       'op_update_template', 'op_derive_equations_only', 'update_var_on_copy', 'run_noclear', 'get_run_func_noclear', 'get_jacobian_func_noclear']
 
 
 def first_state(spec):
@@ -95,6 +95,13 @@ def do_op(ct, spec, name, vectorize):
             for optpl in list(nt.operators):
                 optpl.update_template(name=optpl.name + '_derived', equations={'replace': {'x': 'x'}},
                                       variables={'zz_new': 1.5})
+        elif name == 'op_derive_equations_only':
+            # a derived operator whose equation edit makes variables unused: the parent keeps all of its variables
+            nt = ct.get_node_template(nodes[0])
+            for optpl in list(nt.operators):
+                consts = [v for v, d in optpl.variables.items() if not str(d).startswith(('output', 'input', 'variable'))]
+                if consts:
+                    optpl.update_template(name=optpl.name + '_noconst', equations={'replace': {consts[0]: '1.0'}})
         elif name == 'update_var_on_copy':
             c2 = copy.deepcopy(ct)
             c2.update_var(node_vars={first_state(spec): 3.125})
